@@ -373,4 +373,87 @@ theorem fold_settles {σ α} (wof : σ → World) (key : α → Nat) (f : σ →
       exact hin ⟨x, hx, e.trans hab.symm⟩
 
 
+/-! ### a whole package -/
+
+/-- after a package of any kind has been executed every order of it is settled (statement and comment: C12) -/
+theorem package_settles (w : World) (p : Package) (hI : Inv w) (hp : ∀ oid ∈ p.orders, HasOrder w oid) :
+    ∀ oid ∈ w.packageOrders p, Settled ((w.executePackage p).order! oid) := by
+  have hpo : ∀ oid ∈ w.packageOrders p, HasOrder w oid := fun oid h => hp oid (List.mem_filter.mp h).1
+  intro oid hoid
+  unfold executePackage
+  cases p.kind with
+  | place =>
+    simp only; unfold executePlace
+    have := fold_settles (σ := World) id id (placeStep p) Inv
+      (fun s a h _ => settled_of_outcome _ _ (C03.placeStep_outcome p s a h))
+      (fun s a h _ => fr_placeStep s p s a h)
+      (fun s a _ hi => (good_placeStep p s a).2 hi) (w.packageOrders p) w hI hpo oid hoid
+    simp only [id] at this
+    rw [order!_congr _ _ (show (((w.packageOrders p).foldl (placeStep p) w).addTransaction p.client _ false).orders = _ from rfl) oid]
+    exact this
+  | cancel =>
+    simp only; unfold executeCancel
+    simp only
+    have := fold_settles (σ := World × Nat) (·.1) id (cancelStep p) Inv
+      (fun s a h _ => settled_of_outcome _ _ (C03.cancelStep_outcome p s.1 s.2 a h).1)
+      (fun s a h _ => fr_cancelStep s.1 p s a h)
+      (fun s a _ hi => (good_cancelStep p s a).2 hi) (w.packageOrders p) (w, 0) hI hpo oid hoid
+    simp only [id] at this
+    generalize (w.packageOrders p).foldl (cancelStep p) (w, 0) = r at this
+    obtain ⟨w1, failed⟩ := r
+    simp only at this ⊢
+    split
+    · rw [order!_congr _ _ (show (w1.addTransaction p.client failed true).orders = w1.orders from rfl) oid]; exact this
+    · exact this
+  | update =>
+    simp only; unfold executeUpdate
+    simp only
+    have := fold_settles (σ := World × Nat) (·.1) id (updateStep p) Inv
+      (fun s a h _ => settled_of_outcome _ _ (C03.updateStep_outcome p s.1 s.2 a h).1)
+      (fun s a h _ => fr_updateStep s.1 p s a h)
+      (fun s a _ hi => (good_updateStep p s a).2 hi) (w.packageOrders p) (w, 0) hI hpo oid hoid
+    simp only [id] at this
+    generalize (w.packageOrders p).foldl (updateStep p) (w, 0) = r at this
+    obtain ⟨w1, failed⟩ := r
+    simp only at this ⊢
+    split
+    · rw [order!_congr _ _ (show (w1.addTransaction p.client failed true).orders = w1.orders from rfl) oid]; exact this
+    · exact this
+  | replace =>
+    simp only; unfold executeReplace
+    simp only
+    -- the orders that still have an instruction, each paired with its own
+    have hfr : ∀ (s : World × Nat) (a : Nat × Option Rat), HasOrder s.1 a.1 → Inv s.1 → Fr s.1 a.1 s.1 (replaceStep p s a).1 :=
+      fun s a h hi => fr_replaceStep s.1 p s a h hi (Ids.Keeps.refl s.1)
+    have hP : ∀ (s : World × Nat) (a : Nat × Option Rat), HasOrder s.1 a.1 → Inv s.1 → Inv (replaceStep p s a).1 :=
+      fun s a _ hi => (good_replaceStep p s a).2 hi
+    have hlive : ∀ a ∈ ((w.packageOrders p).filter fun oid => (w.order! oid).status ≠ some .executionComplete).map (fun oid => (oid, (w.order! oid).ud.newPrice)),
+        HasOrder w a.1 := by
+      intro a ha
+      obtain ⟨x, hx, rfl⟩ := List.mem_map.mp ha
+      exact hpo x (List.mem_filter.mp hx).1
+    have hres : Settled (((((w.packageOrders p).filter fun oid => (w.order! oid).status ≠ some .executionComplete).map
+        (fun oid => (oid, (w.order! oid).ud.newPrice))).foldl (replaceStep p) (w, 0)).1.order! oid) := by
+      by_cases hec : (w.order! oid).status = some .executionComplete
+      · -- completed since the request: no instruction, nothing touches it
+        refine fold_keeps_settled (σ := World × Nat) (·.1) (·.1) (replaceStep p) Inv hfr hP oid _ (w, 0) hI hlive ?_ (hpo oid hoid) (Or.inr (Or.inl hec))
+        intro a ha e
+        obtain ⟨x, hx, rfl⟩ := List.mem_map.mp ha
+        have := (List.mem_filter.mp hx).2
+        simp only [ne_eq, decide_eq_true_eq] at this
+        simp only at e
+        rw [e] at this; exact this hec
+      · have hin : (oid, (w.order! oid).ud.newPrice) ∈ ((w.packageOrders p).filter fun oid => (w.order! oid).status ≠ some .executionComplete).map
+            (fun oid => (oid, (w.order! oid).ud.newPrice)) :=
+          List.mem_map.mpr ⟨oid, List.mem_filter.mpr ⟨hoid, by simpa using hec⟩, rfl⟩
+        exact fold_settles (σ := World × Nat) (·.1) (·.1) (replaceStep p) Inv
+          (fun s a h hi => replaceStep_own p s a h hi) hfr hP _ (w, 0) hI hlive _ hin
+    generalize (((w.packageOrders p).filter fun oid => (w.order! oid).status ≠ some .executionComplete).map
+        (fun oid => (oid, (w.order! oid).ud.newPrice))).foldl (replaceStep p) (w, 0) = r at hres
+    obtain ⟨w1, failed⟩ := r
+    simp only at hres ⊢
+    split
+    · exact hres
+    · exact hres
+
 end Flumine.Settle
